@@ -82,6 +82,9 @@ class ShapelyPolygon(Domain):
             if len(points) == n:
                 break
         points = self._check_enough_points_sampled(n, points, big_t, device)
+        if len(points) > n:
+            # triangles that leave the polygon can deliver more than their share
+            points = points[torch.randperm(len(points), device=device)[:n]]
         return Points(points, self.space)
 
     def _sample_in_triangulation(self, t, n, device):
